@@ -32,7 +32,7 @@ def py_parts(rec, d, chars, bounds, n_override=None):
     return out
 
 
-def run(chk):
+def _run_once(chk):
     chk.rule = ("valid UTF-8 records over {\", \\, U+0000, U+0001, \\b, \\f, CR, TAB, U+001F, DEL, U+2028, 😎, a, é, the other EOL} and the "
                 "delimiter; -f with 1-byte and multi-byte delimiters and -c; bounds without format text, sides in ±4/open, fallbacks; -z; "
                 "every output line parsed by python's json (strict) and compared element-wise with an independent selection; "
@@ -106,3 +106,9 @@ def run(chk):
                 chk.report_oracle("a --json line does not decode to the selected parts",
                                   {"case": l, "implementation": i, "line": outs[k], "decoded": got, "expected_parts": exp})
                 break
+
+
+def run(chk):
+    # thorough = several independent rounds of the same generators (the PRNG keeps advancing), so that memory stays bounded
+    for _round in range(1 if chk.tier == "quick" else 6):
+        _run_once(chk)
